@@ -188,8 +188,20 @@ class C11Part(M.MiscPart):
         sig = []
         for o in impl_out:
             d = M.parse_sweep(o)
-            if d and d["size"] > 32:
+            if not d:
+                continue
+            if d["size"] > 32:
                 sig.append((d["kind"], d["size"], d["hex"][:32]))
+            cov = getattr(self, "cov", None)       # measured coverage of the sweeps (called once per history by the runner)
+            if cov is not None:
+                cov["images_swept"] = cov.get("images_swept", 0) + 1
+                for path, toks in d["prefix"].items():
+                    cov["prefixes"] = cov.get("prefixes", 0) + len(toks)
+                    cov["prefixes_skipped_after_watchdog"] = cov.get("prefixes_skipped_after_watchdog", 0) + toks.count("skipped")
+                for path, c in d["corrupt"].items():
+                    cov["corruptions"] = cov.get("corruptions", 0) + c.get("cases", 0)
+                    cov["corruptions_skipped_after_watchdog"] = cov.get("corruptions_skipped_after_watchdog", 0) + sum(1 for b in c["bad"] if b[2] == "skipped")
+                cov["exhaustive"] = cov.get("prefixes_skipped_after_watchdog", 0) == 0
         return tuple(sig) or None
 
 
@@ -222,6 +234,10 @@ class C11Misc(Spec):
 
     def parts(self):
         return PARTS
+
+    def extra_stages(self, rep, tier, rng, broken):
+        for p in PARTS:
+            p.cov = rep.cov      # sweeps add: images_swept, prefixes (exhaustive per image and path), corruptions, *_skipped_after_watchdog
 
 
 SPEC = C11Misc()
